@@ -18,6 +18,7 @@ mod c03;
 mod c04;
 mod c05;
 mod c14;
+mod c15;
 mod sess;
 mod sessgen;
 mod c07;
@@ -56,6 +57,7 @@ fn main() {
         "C11" => drv::run_c11,
         "C12" => drv::run_c12,
         "C13" => c13::run,
+        "C15" => c15::run,
         "C17" => c17::run,
         "C18" => c18::run,
         _ => {
